@@ -449,3 +449,44 @@ def run_replay(eng, prop, path):
     print(f"  clause={v['clause']} step={v['step']} detail={v['detail']}")
     print(f"VIOLATION property={prop} replay={path}")
     return 1
+
+
+# ----------------------------------------------------------------------------- determinism support
+def run_digests(eng, prop, tier, seed, workers, max_tasks, out_path):
+    """executes the first max_tasks tasks and writes {task index: run digest} - used by the determinism self-test"""
+    global _ENGINE
+    _ENGINE = eng
+    silence_logging()
+    tasks = eng.tasks(prop, tier, seed)
+    # a spread over all task kinds
+    kinds = {}
+    for t in tasks:
+        kinds.setdefault(t["kind"], []).append(t)
+    per = max(1, max_tasks // max(1, len(kinds)))
+    sel = []
+    for k in sorted(kinds):
+        sel += kinds[k][:per]
+    for i, t in enumerate(sel):
+        t["n"] = i
+    deadline = time.time() + 3600
+    chunks = [sel[i::max(1, workers * 2)] for i in range(max(1, workers * 2))]
+    chunks = [c for c in chunks if c]
+    results = []
+    if workers <= 1:
+        for c in chunks:
+            results.extend(_work_chunk((prop, seed, tier, c, deadline)))
+    else:
+        ctx = multiprocessing.get_context("fork")
+        with cf.ProcessPoolExecutor(max_workers=workers, mp_context=ctx) as pool:
+            for r in pool.map(_work_chunk, [(prop, seed, tier, c, deadline) for c in chunks]):
+                results.extend(r)
+    out = {}
+    for r in results:
+        if r.get("harness_error"):
+            out[str(r["task"]["n"])] = "HARNESS-ERROR " + r["harness_error"][:200]
+        else:
+            v = r.get("violation")
+            out[str(r["task"]["n"])] = r["digest"] + ("" if not v else "|" + v["clause"]) + "|" + r["sig"]
+    with open(out_path, "w") as f:
+        json.dump(out, f, sort_keys=True)
+    return 0
